@@ -106,6 +106,11 @@ def cases(desc):
         for declare in (True, False):
             for buffering in (1, 16):
                 variants.append({"dir": "down", "path": "text", "declare": declare, "buffering": buffering})
+        for via in ("data", "raw", "write-fn", "var-open", "var-open-nosize"):
+            variants.append({"dir": "down", "path": "variable", "via": via})
+        for via in ("data", "raw", "read-fn", "var-open"):
+            variants.append({"dir": "up", "path": "variable", "via": via,
+                             "style": {"upload_size_indicated": True, "expedited_upload": True, "expedited_size_indicated": True}})
         # ---- uploads
         for size_ind in (True, False):
             for exp in (True, False):
@@ -120,14 +125,18 @@ def cases(desc):
                             variants.append({"dir": "up", "path": "open", "style": style, "buffering": buffering, "reads": rk})
                     variants.append({"dir": "up", "path": "text", "style": style, "buffering": 16})
         if not full:
-            keep = [v for v in variants if v["path"] in ("download", "upload")]
-            rest = [v for v in variants if v["path"] not in ("download", "upload")]
+            keep = [v for v in variants if v["path"] in ("download", "upload", "variable")]
+            rest = [v for v in variants if v["path"] not in ("download", "upload", "variable")]
             rng.shuffle(rest)
             variants = keep + rest[:desc["sampled"]]
         for v in variants:
             c = dict(v, n=n, seed=rng.randint(0, 1 << 30))
             c["mux"] = list(rng.choice(MUXES)) if rng.random() < 0.7 else [rng.randint(1, 0xFFFF), rng.randint(0, 255)]
-            while 0x2001 <= c["mux"][0] <= 0x21FF:
+            if v["path"] == "variable":
+                # the declared DOMAIN / OCTET_STRING entries of the client's dictionary (top level and record member)
+                c["mux"] = list(rng.choice([(gen.TYPE_INDEX_BASE + R.DOMAIN, 0), (gen.TYPE_INDEX_BASE + R.OCTET_STRING, 0),
+                                            (0x2100, list(R.NAMES).index(R.DOMAIN) + 1)]))
+            while 0x2001 <= c["mux"][0] <= 0x21FF and v["path"] != "variable":
                 # these indexes are declared (typed) in the client's dictionary: uploads there are truncated to the
                 # declared width, which is what the "upload-declared" path checks on purpose
                 c["mux"][0] = rng.randint(1, 0xFFFF)
@@ -138,7 +147,7 @@ def cases(desc):
 
 def signature(c):
     return (c["dir"], c["path"], lenclass(c["n"]), c.get("declare"), c.get("force"), c.get("buffering"),
-            c.get("chunks") or c.get("reads"),
+            c.get("chunks") or c.get("reads") or c.get("via"),
             tuple(sorted(c["style"].items())) if "style" in c else None)
 
 
@@ -201,9 +210,26 @@ def run_case(ctx, rig, c):
         ctx.sample({"case": c, "wire": trace()[:12]})
 
 
+def variable_of(rig, index, sub):
+    entry = rig.sdo[index]
+    return entry if sub == 0 and index != 0x2100 else entry[sub]
+
+
 def do_download(rig, c, index, sub, data):
     sdo = rig.sdo
     n = len(data)
+    if c["path"] == "variable":
+        var = variable_of(rig, index, sub)
+        if c["via"] == "data":
+            var.data = data
+        elif c["via"] == "raw":
+            var.raw = data
+        elif c["via"] == "write-fn":
+            var.write(data)
+        else:
+            with var.open("wb", size=n if c["via"] == "var-open" else None) as fp:
+                fp.write(data)
+        return
     if c["path"] == "download":
         sdo.download(index, sub, data, force_segment=c["force"])
         return
@@ -261,6 +287,16 @@ def do_upload_setup(rig, c, index, sub):
 def do_upload(rig, c, index, sub):
     sdo = rig.sdo
     index, sub = c["mux"]
+    if c["path"] == "variable":
+        var = variable_of(rig, index, sub)
+        if c["via"] == "data":
+            return var.data
+        if c["via"] == "raw":
+            return var.raw
+        if c["via"] == "read-fn":
+            return var.read()
+        with var.open("rb") as fp:
+            return fp.read()
     if c["path"] in ("upload", "upload-declared"):
         return sdo.upload(index, sub)
     if c["path"] == "text":
